@@ -5,6 +5,8 @@ go 1.26.2
 require (
 	github.com/dolthub/go-mysql-server v0.0.0
 	github.com/dolthub/vitess v0.0.0-20260819175407-19559ab533b7
+	github.com/sirupsen/logrus v1.8.3
+	golang.org/x/sync v0.20.0
 )
 
 require (
@@ -18,10 +20,8 @@ require (
 	github.com/lestrrat-go/strftime v1.2.0 // indirect
 	github.com/pkg/errors v0.9.1 // indirect
 	github.com/pmezard/go-difflib v1.0.0 // indirect
-	github.com/sirupsen/logrus v1.8.3 // indirect
 	go.opentelemetry.io/otel v1.41.0 // indirect
 	go.opentelemetry.io/otel/trace v1.41.0 // indirect
-	golang.org/x/sync v0.20.0 // indirect
 	golang.org/x/sys v0.45.0 // indirect
 	golang.org/x/text v0.37.0 // indirect
 	golang.org/x/tools v0.45.0 // indirect
